@@ -1,8 +1,10 @@
 package lakesim
 
 import (
+	"encoding/json"
 	"fmt"
 	"runtime/debug"
+	"strings"
 
 	"github.com/brimdata/super/compiler"
 	"github.com/segmentio/ksuid"
@@ -38,6 +40,7 @@ func runInWorld(tape *kernel.Tape, prop string, body func(w *World) *kernel.Viol
 	p, leaked := InBubble(func() {
 		mode := simdisk.Mode(tape.Stream("knobs").Intn(2))
 		w := NewWorld(tape, mode, out)
+		w.Disk.ParkAllHooks = true // one client runs at a time here
 		defer w.Disk.Close()
 		w.Sched.Go(func() {
 			defer func() {
@@ -52,6 +55,12 @@ func runInWorld(tape *kernel.Tape, prop string, body func(w *World) *kernel.Viol
 		w.Finish()
 	})
 	if p != nil {
+		if msg := fmt.Sprint(p.val); strings.HasPrefix(msg, "bubble deadlock") {
+			// Every goroutine of the run is blocked for good with no timer
+			// pending: an operation of the lake never returns.
+			out.Violation = kernel.Violatef(prop+":deadlock", "an operation blocked forever (no goroutine can run, no timer pending): %s\noperations so far: %s", msg, describeOps(out.Desc))
+			return out
+		}
 		panic(fmt.Sprintf("%v\n%s", p.val, p.stack))
 	}
 	if leaked {
@@ -61,6 +70,17 @@ func runInWorld(tape *kernel.Tape, prop string, body func(w *World) *kernel.Viol
 	}
 	out.Violation = viol
 	return out
+}
+
+func describeOps(desc any) string {
+	b, err := json.Marshal(desc)
+	if err != nil || len(b) > 1500 {
+		if len(b) > 1500 {
+			return string(b[len(b)-1500:])
+		}
+		return "?"
+	}
+	return string(b)
 }
 
 // setup creates the lake and one pool and returns the sequential runner.
